@@ -21,6 +21,10 @@ type externalInfo struct {
 var externals = map[string]externalInfo{
 	"sort.SliceStable":               {mutates: []int{0}, note: "sort.SliceStable permutes its slice argument stably by less"},
 	"golang.org/x/exp/slices.Sort":   {mutates: []int{0}, note: "slices.Sort sorts in place"},
+	"sort.Strings":                   {mutates: []int{0}, note: "sort.Strings sorts in place"},
+	"sort.Ints":                      {mutates: []int{0}, note: "sort.Ints sorts in place"},
+	"sort.Float64s":                  {mutates: []int{0}, note: "sort.Float64s sorts in place"},
+	"sort.Sort":                      {mayPanic: true, note: "sort.Sort calls back into the argument's methods"},
 	"golang.org/x/exp/slices.Delete": {rangePanic: true, note: "slices.Delete(s, i, j) panics exactly when s[i:j] is not a valid slice of s"},
 	"io/fs.Glob":                     {nilPanics: []int{0}, note: "fs.Glob calls a method of its FS argument: a nil FS is a nil-interface method call (panics)"},
 	"io/fs.ReadFile":                 {nilPanics: []int{0}, note: "fs.ReadFile calls a method of its FS argument: a nil FS panics"},
